@@ -154,6 +154,17 @@ pub fn combinator_schemas() -> Vec<Value> {
         json!({"type": "null"}),
         json!({}),
         json!(true),
+        // $ref / anyOf / enum / const followed by sibling array, object and string keywords
+        json!({"$defs": {"t": {"type": "array", "prefixItems": [{"type": "integer"}, {"type": "boolean"}], "items": false}}, "$ref": "#/$defs/t", "prefixItems": [{"minimum": 0}]}),
+        json!({"$defs": {"t": {"type": "array", "prefixItems": [{"type": "integer"}, {"type": "boolean"}], "items": false}}, "$ref": "#/$defs/t", "minItems": 1}),
+        json!({"enum": [[1, true], [2, false], [], [3]], "prefixItems": [{"type": "integer", "minimum": 2}]}),
+        json!({"const": [1, "a"], "prefixItems": [{"type": "integer"}]}),
+        json!({"anyOf": [{"type": "array", "prefixItems": [{"const": 1}, {"const": 2}], "items": false}, {"type": "null"}], "minItems": 1}),
+        json!({"anyOf": [{"type": "array", "prefixItems": [{"const": 1}, {"const": 2}], "items": {"type": "null"}, "maxItems": 3}, {"type": "null"}], "prefixItems": [{"type": "integer"}], "items": {"type": ["null", "integer"]}}),
+        json!({"$defs": {"o": {"type": "object", "properties": {"a": {"type": "integer"}}, "required": ["a"]}}, "$ref": "#/$defs/o", "properties": {"b": {"type": "null"}}, "additionalProperties": false}),
+        json!({"$defs": {"s": {"type": "string", "minLength": 1}}, "$ref": "#/$defs/s", "maxLength": 2}),
+        json!({"$defs": {"n": {"type": "integer", "minimum": 2}}, "$ref": "#/$defs/n", "maximum": 4}),
+        json!({"type": "array", "prefixItems": [{"type": "integer"}], "items": false, "minItems": 1}),
         // enum / const intersected with sibling keywords
         json!({"type": "string", "enum": ["é", "ab", "x", "éé"], "minLength": 2}),
         json!({"enum": ["é", "ab", "abc", "😀", "😀😀"], "maxLength": 1}),
